@@ -444,17 +444,37 @@ def bubble_cases(draw, tier):
     b = draw(st.one_of(st.just(a), gen.diagrams_to(
         cls, a["dom"], specs.spec_cod(a), pool=pool, max_boxes=3,
         max_width=3)))
-    return {"a": a, "b": b, "typed": draw(st.booleans())}
+    return {"a": a, "b": b, "typed": draw(st.sampled_from(
+        [False, True, "dom", "cod"]))}
 
 
 def check_bubbles(case):
     sa, sb = case["a"], case["b"]
     cls = sa["cls"]
     a, b = specs.build(sa), specs.build(sb)
-    if case["typed"]:
+    if case["typed"] is True:
         ba, bb = a.bubble(dom=a.cod, cod=a.dom), b.bubble(dom=b.cod, cod=b.dom)
+    elif case["typed"] == "dom":    # only one of the two types overridden
+        ba, bb = a.bubble(dom=a.cod), b.bubble(dom=b.cod)
+    elif case["typed"] == "cod":
+        ba, bb = a.bubble(cod=a.dom), b.bubble(cod=b.dom)
     else:
         ba, bb = a.bubble(), b.bubble()
+    for x, d, c in ((ba, a.dom, a.cod), (bb, b.dom, b.cod)):
+        want = {False: (d, c), True: (c, d), "dom": (c, c),
+                "cod": (d, d)}[case["typed"]]
+        require(specs.tkey(x.dom) == specs.tkey(want[0])
+                and specs.tkey(x.cod) == specs.tkey(want[1]),
+                "C03:bubble-types", lambda: "{!r}: {} -> {}".format(
+                    x, x.dom, x.cod))
+    # the same inside under other types is another bubble, and prints so
+    plain = a.bubble()
+    if specs.tkey(a.dom) != specs.tkey(a.cod) and case["typed"]:
+        require(not lib_eq(ba, plain), "C03:bubble-eq-ignores-types",
+                lambda: "{!r} == {!r}".format(ba, plain))
+        require(repr(ba) != repr(plain), "C03:repr-not-injective",
+                lambda: "{!r} for {} -> {} and for {} -> {}".format(
+                    ba, ba.dom, ba.cod, plain.dom, plain.cod))
     if word_only(sa, sb):
         return check_word_pair(ba, bb)
     if model_equal(sa, sb) and dict_order_differs(sa, sb):
